@@ -82,6 +82,9 @@ LEAVES = [
       enf=True, strish=True),
     L("enum_brace", {"type": "string", "enum": ["{x}", "a}", "{{", "%s {}"]}, enf=True, strish=True),
     L("enum_excl", {"type": "string", "enum": ["a", "bbb"], "maxLength": 2}, enf=True, strish=True),
+    # enumerated strings under length bounds where byte length and character count fall on different sides of a bound
+    L("enum_mb_len", {"type": "string", "minLength": 2, "maxLength": 4, "enum": ["\u00e9", "ab", "caf\u00e9", "mat\u00e9", "\u65e5\u672c\u8a9e\u6587", "\u65e5\u672c\u8a9e\u6587\u5b57", "soda", "toolong"]},
+      enf=True, strish=True),
     L("enum_mb", {"type": "string", "enum": ["éé", "abc"], "maxLength": 2}, enf=True, strish=True),
     L("enum_notype", {"enum": ["a", "b"]}, enf=True, strish=True),
     # typed non-string enums
@@ -327,6 +330,15 @@ SOLO_COMPOSITES = [
         obj({"t": {"type": "string", "enum": ["idle"]}}, ["t"]),
         obj({"t": {"type": "string", "enum": ["run"]}, "cmd": STR, "retries": {"type": "integer", "format": "uint32", "minimum": 0, "default": 3},
              "verbose": {"type": "boolean", "default": True}}, ["t", "cmd"])]}, enf=True),
+    # anyOf of three: the first and the LAST operand overlap, the middle one is exclusive with both (exclusivity is a property of all pairs)
+    # (members are untyped: with typed members a value that only fits ANOTHER open branch takes its whole declaring branch down with it in the
+    # flattened-Options rendering, which is the pinned tree's behaviour for every non-exclusive anyOf of objects and not what this shape is for)
+    L("anyof3_nonadjacent_obj", {"anyOf": [obj({"name": {}, "email": {}}), obj({"id": {}}, ["id"]), obj({"phone": {}, "fax": {}})]}, enf=False),
+    L("anyof3_nonadjacent_obj_closed", {"anyOf": [obj({"name": STR}, additionalProperties=False), obj({"id": INT}, ["id"], additionalProperties=False),
+                                                  obj({"name": STR, "phone": STR}, additionalProperties=False)]}, ff=False, enf=False),
+    L("anyof3_nonadjacent_scalar", {"anyOf": [STR, INT, {"type": "string", "maxLength": 2}]}, ff=False, enf=False),
+    L("oneof3_nonadjacent_tuple", {"oneOf": [{"type": "array", "items": [INT, INT], "minItems": 2, "maxItems": 2}, obj({"p": STR}, ["p"]),
+                                             {"type": "array", "items": [INT, INT, INT], "minItems": 3, "maxItems": 3}]}, enf=True),
     # boolean schemas as union operands (generators write `true` for "anything" and `false` for a removed alternative)
     L("anyof_true_str", {"anyOf": [True, STR]}, ff=False, enf=False, sup=False),
     L("anyof_false_str", {"anyOf": [False, STR]}, ff=False, enf=False, sup=False, strish=True),
@@ -616,6 +628,10 @@ REFINE_BASES = {
                                                 # extensions adding an UNCONSTRAINED optional member (schema {}, true, or annotations only)
                                                 {"properties": {"note": {}}}, {"properties": {"note": True}}, {"properties": {"note": {"description": "free-form"}}},
                                                 {"properties": {"note": {}, "extra": BOOL}}, {"required": ["note"]}]),
+    # a base that already has bounds of its own: the refinement's bounds must INTERSECT with them
+    "vec_min1": ({"type": "array", "items": INT, "minItems": 1}, [{"minItems": 2, "maxItems": 2}, {"minItems": 2}, {"maxItems": 3}, {"minItems": 0}, {"minItems": 3, "maxItems": 3}]),
+    "vec_1_3": ({"type": "array", "items": INT, "minItems": 1, "maxItems": 3}, [{"minItems": 2, "maxItems": 2}, {"maxItems": 5}, {"minItems": 3}, {"maxItems": 1}]),
+    "str_2_4": ({"type": "string", "minLength": 2, "maxLength": 4}, [{"minLength": 3}, {"maxLength": 3}, {"minLength": 1}, {"maxLength": 6}, {"minLength": 3, "maxLength": 3}]),
     # a base with a SCHEMA-valued additionalProperties (a struct with a flattened typed map): whatever the other branch adds, the typed
     # extras must survive the merge
     "obj_apT": (obj({"s": STR, "n": INT}, ["s"], additionalProperties=STR), [{"required": ["n"]}, {"properties": {"flag": BOOL}}, {"properties": {"s": {"maxLength": 2}}},
@@ -634,12 +650,12 @@ def refine_family(tier):
                         c = dict({"type": base["type"]}, **c)
                     first = {"$ref": "#/definitions/XBase"} if via == "ref" else copy.deepcopy(base)
                     ckeys = "+".join(sorted(con))
-                    enf = ((bname in ("str", "str_max4", "enum_abc", "enum_int", "enum_num") and "format" not in con and "minimum" not in con) or (bname == "int" and "enum" in con)
-                           or (bname == "vec_int" and ckeys == "maxItems+minItems")
+                    enf = ((bname in ("str", "str_max4", "str_2_4", "enum_abc", "enum_int", "enum_num") and "format" not in con and "minimum" not in con) or (bname == "int" and "enum" in con)
+                           or (bname in ("vec_int", "vec_min1") and ckeys == "maxItems+minItems") or (bname == "vec_1_3" and ckeys == "maxItems" and con.get("maxItems") == 1)
                            or (bname in ("obj", "obj_apT") and ckeys in ("required", "additionalProperties")))
                     sh = L("refine[%s:%s%d:%s%s]" % (bname, ckeys, ci, via, ":typed" if typed else ""), {"allOf": [first, c]},
                            ff="uniqueItems" not in con and "multipleOf" not in con and "not" not in con and "format" not in con, enf=enf, fam=True,
-                           strish=bname in ("str", "str_max4", "enum_abc"), defs={"XBase": copy.deepcopy(base)} if via == "ref" else None)
+                           strish=bname in ("str", "str_max4", "str_2_4", "enum_abc"), defs={"XBase": copy.deepcopy(base)} if via == "ref" else None)
                     sh["tg"] = {"rf_base": bname, "rf_con": ckeys, "rf_via": via, "rf_typed": typed}
                     sh["sup"] = False   # allOf used to add constraints is neither schemars output nor documented: rejection is allowed (C01)
                     out.append(sh)
